@@ -5,6 +5,7 @@ import HmsProofs.C07
 import HmsProofs.Lemmas.FuzzArith
 import HmsProofs.Lemmas.FuzzEval
 import HmsProofs.Lemmas.FuzzPratt
+import HmsProofs.Lemmas.FuzzGuard
 /-!
 # C20 — the semantic fuzzer's rewrites preserve behaviour
 
@@ -121,10 +122,6 @@ theorem eval_cmp_swap (cfg : Cfg) (l r : Expr) (hl : PureAt cfg l) (hr : PureAt 
       = evalExpr cfg (fuel + 1) (.infix sp ty op l r) st :=
   Lemmas.Fuzz.eval_cmp_swap cfg l r hl hr fuel sp ty op hop st
 
-/-- Purity is needed for the reordering rules: an operand that writes to the output makes the order
-observable. (The class hypothesis; `println` is the witness the check replays outside the class.) -/
-def reorder_needs_purity_note : Unit := ()
-
 /-- A grouped expression is its content. -/
 theorem eval_grouped (cfg : Cfg) (fuel : Nat) (sp : Span) (e : Expr) :
     evalExpr cfg (fuel + 1) (.grouped sp e) = evalExpr cfg fuel e := Lemmas.Fuzz.eval_grouped cfg fuel sp e
@@ -167,5 +164,37 @@ theorem unparenthesised_variants_counterexample :
 theorem unparenthesised_values_counterexample :
     (10 : I64) - powNat 2 2 ≠ 10 + powNat (-2) 2 ∧ ((7 : I64).sdiv 2) * 2 ≠ ((2 : I64) * 7).sdiv 2 := by
   decide
+
+/-! ## The loop-control guard -/
+
+/-- Soundness of `stmtCanControlLoop`: a statement the guard lets pass never ends in `break` or
+`continue` — at any fuel, in any state, in any program. (So wrapping it into a one-iteration loop
+cannot redirect a loop exit; the body of a loop statement is rightly ignored by the guard, its
+exits are consumed by that loop.) -/
+theorem can_control_loop_sound (cfg : Cfg) (fuel : Nat) (s : Stmt) (st : St) (h : stmtCCL s = false) :
+    (evalStmt cfg fuel s st).1 ≠ .error .brk ∧ (evalStmt cfg fuel s st).1 ≠ .error .cont :=
+  ((ccl_all cfg fuel).stmt s h).h st
+
+/-- The same for expressions and blocks (`exprCanControlLoop`, `blockCanControlLoop`). -/
+theorem expr_can_control_loop_sound (cfg : Cfg) (fuel : Nat) (e : Expr) (st : St) (h : exprCCL e = false) :
+    (evalExpr cfg fuel e st).1 ≠ .error .brk ∧ (evalExpr cfg fuel e st).1 ≠ .error .cont :=
+  ((ccl_all cfg fuel).expr e h).h st
+
+theorem block_can_control_loop_sound (cfg : Cfg) (fuel : Nat) (b : Block) (st : St) (h : blockCCL b = false) :
+    (evalBlock cfg fuel b st).1 ≠ .error .brk ∧ (evalBlock cfg fuel b st).1 ≠ .error .cont :=
+  ((ccl_all cfg fuel).block b h).h st
+
+/-- A function call never lets a loop exit through, whatever the callee does. -/
+theorem call_never_exits_loop (cfg : Cfg) (fuel : Nat) (sp : Span) (f : Val) (vs : List Val) (st : St) :
+    (applyFn cfg fuel sp f vs st).1 ≠ .error .brk ∧ (applyFn cfg fuel sp f vs st).1 ≠ .error .cont :=
+  ((ccl_all cfg fuel).apply sp f vs).h st
+
+/-- The guard is needed, and the unrepaired guard was too weak (finding R9): it ignored the
+default arm of a `match`. `match 0 { _ => { break; } }` does end in `break`; the model guard
+reports it. -/
+theorem guard_sees_match_default :
+    stmtCCL (.exprS ⟨0,0,0,0⟩ (.matchE ⟨0,0,0,0⟩ .never (.int ⟨0,0,0,0⟩ 0) []
+      (some (.blockE (.mk ⟨0,0,0,0⟩ .never [.brk ⟨0,0,0,0⟩] none))))) = true := by
+  simp [stmtCCL, exprCCL, optExprCCL, armsCCL, blockCCL, stmtsCCL]
 
 end HmsProofs.C20
